@@ -195,3 +195,27 @@ def _first_diff(a: dict, b: dict) -> str:
         kb = {k: v for k, v in b["blobs"].items() if a["blobs"].get(k) != v}
         return f"blobs: sequential {str(ka)[:200]}, concurrent {str(kb)[:200]}"
     return "?"
+
+
+def run_crash(world: World, actor_id: str, request: dict, crash_at: int) -> dict:
+    """Serve one request on a baton thread and let the process die at its ``crash_at``-th seam (SQL statement,
+    commit, rollback, blob save/unlink).  What was not committed is lost, what was written to the blob directory
+    stays; the server is then restarted on the surviving files."""
+    if not world.preemptive:
+        raise RuntimeError("crash points need a world started with preemptive=True")
+    b = preempt.Burst(random.Random(0), crash_at=crash_at)
+    b.run([lambda: serve(world, actor_id, request, threaded=True)])
+    crashed = bool(b.crashed)
+    resp = b.results.get(0)
+    if crashed:
+        world.fired("proc.crash_in_request")
+        world.note(actor_id, f"crash at seam {crash_at} ({b.crash_label}) of {request['method']} {request['url'][:120]}")
+        world.stop()
+        boot.restore_globals(world.globals_reset)
+        world.start()
+        world.restarts += 1
+    else:
+        world.record(actor_id, request["method"], request["url"], resp.status if resp else 599,
+                     resp.body if resp else b"", None)
+    return {"crashed": crashed, "label": b.crash_label, "seams": len(b.schedule), "response": resp,
+            "state": world.state()}
